@@ -180,3 +180,57 @@ impl C6Lifecycle {
         self.slot(context, M_CLR, format!("m.on_clear(before={:?})", sorted(&before)))
     }
 }
+
+
+// ---------------------------------------------------------------------------------------------
+// a lifecycle that asks for a dynamic lane from `on_init`
+// ---------------------------------------------------------------------------------------------
+
+use swimos::agent::agent_lifecycle::{item_event::ItemEvent, on_init::OnInit, on_start::OnStart, on_stop::OnStop, on_timer::OnTimer};
+use swimos::agent::event_handler::{ActionContext, HandlerAction};
+use swimos_agent::AgentMetadata;
+
+/// Wraps a lifecycle and, in `on_init` (which is not an event handler), requests a dynamic value
+/// lane whose completion callback records `dynlane(..)`: the callback is an event handler like
+/// any other and must not run before `on_start` has finished.
+#[derive(Clone)]
+pub struct InitDyn<L> {
+    pub inner: L,
+    pub log: Arc<TruthLog>,
+}
+
+impl<L: OnInit<C6Agent>> OnInit<C6Agent> for InitDyn<L> {
+    fn initialize(&self, action_context: &mut ActionContext<C6Agent>, meta: AgentMetadata, context: &C6Agent) {
+        self.inner.initialize(action_context, meta, context);
+        let hc: HandlerContext<C6Agent> = Default::default();
+        let log = self.log.clone();
+        let mut open = hc.open_value_lane("dyn", move |result| hc.effect(move || rec(&log, format!("dynlane(ok={})", result.is_ok()))));
+        let _ = open.step(action_context, meta, context);
+    }
+}
+
+impl<L: OnStart<C6Agent>> OnStart<C6Agent> for InitDyn<L> {
+    fn on_start(&self) -> impl EventHandler<C6Agent> + '_ {
+        self.inner.on_start()
+    }
+}
+
+impl<L: OnStop<C6Agent>> OnStop<C6Agent> for InitDyn<L> {
+    fn on_stop(&self) -> impl EventHandler<C6Agent> + '_ {
+        self.inner.on_stop()
+    }
+}
+
+impl<L: OnTimer<C6Agent>> OnTimer<C6Agent> for InitDyn<L> {
+    fn on_timer(&self, timer_id: u64) -> impl EventHandler<C6Agent> + '_ {
+        self.inner.on_timer(timer_id)
+    }
+}
+
+impl<L: ItemEvent<C6Agent>> ItemEvent<C6Agent> for InitDyn<L> {
+    type ItemEventHandler<'a> = L::ItemEventHandler<'a> where Self: 'a;
+
+    fn item_event<'a>(&'a self, context: &C6Agent, item_name: &'a str) -> Option<Self::ItemEventHandler<'a>> {
+        self.inner.item_event(context, item_name)
+    }
+}
